@@ -1,6 +1,7 @@
 package main
 
 import (
+	"regexp"
 	"fmt"
 	"go/types"
 	"sort"
@@ -366,8 +367,17 @@ func shortQual(p *types.Package) string {
 }
 
 // TypeKey is a short canonical name for a Go type, used in heap names.
+var aliasRe = regexp.MustCompile(`\b(uint8|rune)\b`)
+
+// TypeKey names a type in heap names. byte/uint8 and rune/int32 are the same types and get one name.
 func TypeKey(t types.Type) string {
-	return sanitize(types.TypeString(t, shortQual))
+	s := aliasRe.ReplaceAllStringFunc(types.TypeString(t, shortQual), func(m string) string {
+		if m == "uint8" {
+			return "byte"
+		}
+		return "int32"
+	})
+	return sanitize(s)
 }
 
 func (u *Universe) SortOf(t types.Type) Sort {
